@@ -8,7 +8,7 @@ ALL = ["C%02d" % i for i in range(1, 21)]
 checks = []
 for p in ALL:
     c = propconf.PROPS.get(p)
-    if not c or not c.get("claimed", True):
+    if not c or not c.get("claimed", True) or p in getattr(propconf, 'IN_PROGRESS', set()):
         continue
     checks.append({
         "property_id": p,
